@@ -1,7 +1,7 @@
 (* C06 — subjects deliver each item once, in order, to exactly the current subscribers. *)
 From RxModel Require Import Subject Ileave.
 From RxSpec Require Import SubjectSpec IleaveSpec.
-From RxProofs Require SubjectLaws IleaveBase IleaveInv IleaveOrder IleaveLaws.
+From RxProofs Require SubjectLaws IleaveBase IleaveInv IleaveOrder IleaveLaws IleaveComplete.
 
 (* Every history of subscribe / unsubscribe-one / next / next-with-a-subscription-made-
    inside-a-callback / error / complete / clone / retain / unsubscribe-subject and of the
@@ -54,6 +54,47 @@ Theorem C06_threads_nothing_after_unsubscribe :
     let '(tr, e, fin) := run_case v0 setup scripts sched in quiet_after_unsub tr = true.
 Proof. exact IleaveLaws.il_quiet_after_unsub. Qed.
 
+(* "to exactly those subscribers that subscribed before that emission began and have not unsubscribed": a subscriber
+   that was there from the start and never left gets EVERY emission that reaches anybody - when all threads have returned
+   (at any earlier moment: all but possibly the one emission still in progress, in which it is next in line) ... *)
+Theorem C06_threads_current_subscriber_sees_everything :
+  forall v0 setup scripts sched,
+    IleaveInv.names_ok setup scripts = true -> IleaveInv.setup_completes v0 setup = true ->
+    let '(tr, e, fin) := run_case v0 setup scripts sched in
+    e = EFinished -> full_time_sees_all setup scripts tr = true.
+Proof. exact IleaveComplete.il_full_time_sees_all. Qed.
+
+Theorem C06_threads_current_subscriber_at_any_moment :
+  forall v0 setup scripts sched,
+    IleaveInv.names_ok setup scripts = true -> IleaveInv.setup_completes v0 setup = true ->
+    let '(tr, e, fin) := run_case v0 setup scripts sched in
+    IleaveComplete.full_time_sees_all_but_last setup scripts tr = true.
+Proof. exact IleaveComplete.il_full_time_sees_all_but_last. Qed.
+
+(* ... and no emission is lost: when every thread has returned and nobody terminated or unsubscribed the subject, every
+   next() of every script has reached it *)
+Theorem C06_threads_no_emission_lost :
+  forall v0 setup scripts sched,
+    IleaveInv.names_ok setup scripts = true -> IleaveInv.setup_completes v0 setup = true ->
+    let '(tr, e, fin) := run_case v0 setup scripts sched in
+    nothing_lost setup scripts tr e = true.
+Proof. exact IleaveComplete.il_nothing_lost. Qed.
+
+Check C06_threads_current_subscriber_sees_everything : forall v0 setup scripts sched,
+    IleaveInv.names_ok setup scripts = true -> IleaveInv.setup_completes v0 setup = true ->
+    let '(tr, e, fin) := run_case v0 setup scripts sched in
+    e = EFinished -> full_time_sees_all setup scripts tr = true.
+Check C06_threads_current_subscriber_at_any_moment : forall v0 setup scripts sched,
+    IleaveInv.names_ok setup scripts = true -> IleaveInv.setup_completes v0 setup = true ->
+    let '(tr, e, fin) := run_case v0 setup scripts sched in
+    IleaveComplete.full_time_sees_all_but_last setup scripts tr = true.
+Check C06_threads_no_emission_lost : forall v0 setup scripts sched,
+    IleaveInv.names_ok setup scripts = true -> IleaveInv.setup_completes v0 setup = true ->
+    let '(tr, e, fin) := run_case v0 setup scripts sched in
+    nothing_lost setup scripts tr e = true.
+Print Assumptions C06_threads_current_subscriber_sees_everything.
+Print Assumptions C06_threads_current_subscriber_at_any_moment.
+Print Assumptions C06_threads_no_emission_lost.
 Check C06_threads_values : forall v0 setup scripts sched,
     let '(tr, e, fin) := run_case v0 setup scripts sched in values_ok scripts tr = true.
 Check C06_threads_once_in_common_order : forall v0 setup scripts sched,
@@ -99,3 +140,10 @@ Example C06_threads_example :
   (let '(tr, e, f) := run_case 0%Z IleaveLaws.ex_setup IleaveLaws.ex_scripts IleaveLaws.ex_sched in
    (ileave_ok IleaveLaws.ex_setup IleaveLaws.ex_scripts tr e, e, Nat.ltb 30 (length tr))) = (true, EFinished, true).
 Proof. exact IleaveLaws.hyps_case_runs. Qed.
+
+(* a schedule that stops in the middle of a broadcast: the subscriber next in line has not been served yet *)
+Example C06_threads_mid_broadcast :
+  let '(tr, e, fin) := run_case 0%Z [ISub 0; ISub 1] [[INext 1%Z]] [0; 0; 0; 0; 0]%nat in
+  (e, full_time_sees_all [ISub 0; ISub 1] [[INext 1%Z]] tr, IleaveComplete.full_time_sees_all_but_last [ISub 0; ISub 1] [[INext 1%Z]] tr)
+  = (EShort, false, true).
+Proof. vm_compute. reflexivity. Qed.
